@@ -52,6 +52,7 @@ structure FileReport where
   view : Option BucketView := none
   freePages : List Nat := []
   pagesReencoded : Nat := 0
+  treeReach : List Nat := []
 
 mutual
 partial def treePages : Tree Bytes LeafVal → List Nat
@@ -117,7 +118,7 @@ def checkBytes (L : Layout) (order : List MetaField) (ba : ByteArray) (pagesize 
       else
       { ok := true, msg := "ok", dump := dumpView sum.root true, numPages := mt.numPages, txId := mt.txId,
         free := sum.free.length, reach := sum.reach.length, fileSize := ba.size,
-        reachPages := sum.reach ++ sum.freelistRun, freePages := sum.free, view := some sum.root, pagesReencoded := pages.length }
+        reachPages := sum.reach ++ sum.freelistRun, freePages := sum.free, view := some sum.root, pagesReencoded := pages.length, treeReach := sum.reach }
     | .error e =>
       let detail := match e with
         | .notATree p => match decodePage L s pagesize p with
